@@ -7,6 +7,8 @@ import (
 	"go/types"
 	"sort"
 	"strings"
+
+	"golang.org/x/tools/go/cfg"
 )
 
 const txPkg = "pkg/core/transaction"
@@ -278,6 +280,15 @@ func ruleDepthGuard(c *Ctx) {
 // C15 cond-context, scope-context
 
 func ruleCondContext(c *Ctx) {
+	ruleMatchErrorFalse(c)
+	// the caller-is-the-account shortcut of CheckWitness applies only when there is a caller at all
+	runGates(c, []GateSpec{{
+		ID: "CheckHashedWitness.caller-shortcut", Fn: [3]string{"pkg/core/interop/runtime", "", "CheckHashedWitness"}, Target: "return-true",
+		Guards: []Guard{
+			{ID: "caller-is-account", Doc: "the calling script hash equals the checked account", Alts: [][]string{{"param:hash", "pkg/vm.(*VM).GetCallingScriptHash", "pkg/util.(Uint160).Equals"}}},
+			{ID: "caller-exists", Doc: "the calling script hash is not the zero hash (entry scripts, verification scripts and verify methods have no caller)", Alts: [][]string{{"type:pkg/util.Uint160", "pkg/vm.(*VM).GetCallingScriptHash"}}},
+		},
+	}})
 	pk := c.P.Pkg(txPkg)
 	if pk == nil {
 		c.Lost("anchor", "package transaction not found")
@@ -406,4 +417,126 @@ func ruleCondContext(c *Ctx) {
 			c.Fail("checkScope.rule-verdict", c.P.Pos(fd.Decl.Pos()), "the verdict of a matching witness rule is no longer `Action == WitnessAllow`")
 		}
 	}
+}
+
+// ruleMatchErrorFalse: a condition whose evaluation failed (group lookup without ReadStates) matches nothing: every
+// return of a Match method that can carry a non-nil error has `false` as its first result, also through negation.
+func ruleMatchErrorFalse(c *Ctx) {
+	pk := c.P.Pkg(txPkg)
+	n := 0
+	for _, fd := range c.P.AllFuncDecls() {
+		if fd.Pkg != pk || fd.Decl.Body == nil || fd.Decl.Name.Name != "Match" || fd.Decl.Recv == nil {
+			continue
+		}
+		sig := fd.Obj.Type().(*types.Signature)
+		if sig.Results().Len() != 2 || !isBoolType(sig.Results().At(0).Type()) || !isErrorType(sig.Results().At(1).Type()) {
+			continue
+		}
+		f := c.P.NewFuncCFG(fd)
+		idx := 0
+		for _, r := range f.Returns() {
+			rs := r.node.(*ast.ReturnStmt)
+			if len(rs.Results) != 2 {
+				continue // forwarding `return x.Match(ctx)`
+			}
+			if isNilIdent(f.Info, rs.Results[1]) {
+				continue
+			}
+			eid, ok := ast.Unparen(rs.Results[1]).(*ast.Ident)
+			if !ok {
+				continue // a freshly built error: fine whatever the first result, checked below only for identifiers
+			}
+			eobj := f.Info.ObjectOf(eid)
+			if nilOnEdge(f, r.blk, eobj) {
+				continue
+			}
+			n++
+			idx++
+			key := fmt.Sprintf("%s.error-means-false#%d", FuncKey(fd.Obj), idx)
+			v, known := evalUnderErr(f, rs.Results[0], eobj)
+			if known && !v {
+				c.OK(key, c.P.Pos(rs.Pos()), "when the error is set the first result is false")
+			} else {
+				c.Fail(key, c.P.Pos(rs.Pos()), fmt.Sprintf("%s can return a non-nil error together with a first result that is not forced to false (`%s`): a caller that looks at the result first (Or, Not) turns a failed evaluation into a match", FuncKey(fd.Obj), types.ExprString(rs.Results[0])))
+			}
+		}
+	}
+	c.Floor("returns of Match methods that may carry an error", n, 3)
+}
+
+// evalUnderErr evaluates a boolean expression assuming `e != nil`.
+func evalUnderErr(f *FuncCFG, x ast.Expr, e types.Object) (bool, bool) {
+	x = ast.Unparen(x)
+	if v, isC := boolConst(f.Info, x); isC {
+		return v, true
+	}
+	switch y := x.(type) {
+	case *ast.UnaryExpr:
+		if y.Op == token.NOT {
+			v, k := evalUnderErr(f, y.X, e)
+			return !v, k
+		}
+	case *ast.BinaryExpr:
+		switch y.Op {
+		case token.LAND, token.LOR:
+			lv, lk := evalUnderErr(f, y.X, e)
+			rv, rk := evalUnderErr(f, y.Y, e)
+			if y.Op == token.LAND {
+				if (lk && !lv) || (rk && !rv) {
+					return false, true
+				}
+				return true, lk && rk
+			}
+			if (lk && lv) || (rk && rv) {
+				return true, true
+			}
+			return false, lk && rk
+		case token.EQL, token.NEQ:
+			var other ast.Expr
+			if id, ok := ast.Unparen(y.X).(*ast.Ident); ok && f.Info.ObjectOf(id) == e {
+				other = y.Y
+			} else if id, ok := ast.Unparen(y.Y).(*ast.Ident); ok && f.Info.ObjectOf(id) == e {
+				other = y.X
+			}
+			if other != nil && isNilIdent(f.Info, other) {
+				return y.Op == token.NEQ, true
+			}
+		}
+	}
+	return false, false
+}
+
+// nilOnEdge: block b is entered only through edges on which o == nil is known.
+func nilOnEdge(f *FuncCFG, b *cfg.Block, o types.Object) bool {
+	for i := 0; i < 8; i++ {
+		ps := f.preds[b]
+		if len(ps) != 1 {
+			return false
+		}
+		p := ps[0]
+		if cnd := f.Cond(p); cnd != nil {
+			if be, ok := ast.Unparen(cnd).(*ast.BinaryExpr); ok && (be.Op == token.NEQ || be.Op == token.EQL) {
+				var other ast.Expr
+				if id, ok := ast.Unparen(be.X).(*ast.Ident); ok && f.Info.ObjectOf(id) == o {
+					other = be.Y
+				} else if id, ok := ast.Unparen(be.Y).(*ast.Ident); ok && f.Info.ObjectOf(id) == o {
+					other = be.X
+				}
+				if other != nil && isNilIdent(f.Info, other) {
+					return (be.Op == token.NEQ && p.Succs[1] == b) || (be.Op == token.EQL && p.Succs[0] == b)
+				}
+			}
+		}
+		for _, n := range p.Nodes {
+			if as, ok := n.(*ast.AssignStmt); ok {
+				for _, lh := range as.Lhs {
+					if id, ok := lh.(*ast.Ident); ok && f.Info.ObjectOf(id) == o {
+						return false
+					}
+				}
+			}
+		}
+		b = p
+	}
+	return false
 }
